@@ -19,6 +19,7 @@ type gor struct {
 	done    bool
 	started bool
 	blocked string // why it is parked ("" = runnable or running)
+	vc      vclock // happens-before clock (race.go)
 }
 
 type ChanV struct {
@@ -27,6 +28,11 @@ type ChanV struct {
 	closed bool
 	recvq  []*waiter
 	sendq  []*waiter
+	// happens-before clocks (race.go): of the buffered values, of the close, of the receives that freed a slot
+	bufVC   []vclock
+	closeVC vclock
+	freeVC  []vclock
+	nsend   int
 }
 
 type waiter struct {
@@ -36,6 +42,7 @@ type waiter struct {
 	ok    *bool
 	sel   *selState
 	index int
+	vc    vclock // clock of the parked goroutine when it parked (sender: the message's clock)
 }
 
 type selState struct {
@@ -77,6 +84,7 @@ func (r *Run) spawn(fr *frame, fn Value, args []Value) {
 	cs.nextID++
 	cs.all = append(cs.all, g)
 	cs.runq = append(cs.runq, g)
+	r.raceFork(cs.cur, g)
 	go func() {
 		m := <-g.wake
 		g.started = true
@@ -165,7 +173,14 @@ func (r *Run) event() {
 	if r.cancelCtx != nil && cs.events == r.cancelAt {
 		c := r.cancelCtx
 		r.cancelCtx = nil
+		// cancelled by the harness's environment, not by the goroutine that happens to be running: releases nothing
+		if r.eng.race {
+			r.rs().external = true
+		}
 		c.cancel(*r.global(r.eng.prog.ImportedPackage("context").Var("Canceled")))
+		if r.eng.race {
+			r.rs().external = false
+		}
 	}
 }
 
@@ -257,21 +272,39 @@ func (r *Run) chanSend(c *ChanV, v Value) {
 	if c.closed {
 		panic(goPanic{strLit("send on closed channel")})
 	}
+	mc := r.raceMsgClock()
 	if w := r.popWaiter(&c.recvq); w != nil {
 		*w.slot = v
 		if w.ok != nil {
 			*w.ok = true
 		}
+		r.raceJoinInto(w.g, mc)
+		if c.cap == 0 {
+			r.raceJoin(w.vc) // unbuffered: the receive happens before the send completes
+		}
 		r.ready(w.g)
 		return
 	}
 	if len(c.buf) < c.cap {
-		c.buf = append(c.buf, v)
+		r.bufSend(c, v, mc)
 		return
 	}
 	me := r.conc().cur
-	c.sendq = append(c.sendq, &waiter{g: me, val: v})
+	c.sendq = append(c.sendq, &waiter{g: me, val: v, vc: mc})
 	r.block("chan send")
+}
+
+// bufSend puts a value into the buffer; the k-th receive happens before the (k+cap)-th send completes
+func (r *Run) bufSend(c *ChanV, v Value, mc vclock) {
+	c.buf = append(c.buf, v)
+	if r.eng.race {
+		c.bufVC = append(c.bufVC, mc)
+		c.nsend++
+		if c.nsend > c.cap && len(c.freeVC) > 0 {
+			r.raceJoin(c.freeVC[0])
+			c.freeVC = c.freeVC[1:]
+		}
+	}
 }
 
 func (r *Run) popWaiter(q *[]*waiter) *waiter {
@@ -302,7 +335,7 @@ func (r *Run) chanRecv(c *ChanV, et types.Type) (Value, bool) {
 	me := r.conc().cur
 	var slot Value
 	okv := false
-	c.recvq = append(c.recvq, &waiter{g: me, slot: &slot, ok: &okv})
+	c.recvq = append(c.recvq, &waiter{g: me, slot: &slot, ok: &okv, vc: r.raceMsgClock()})
 	r.block("chan recv")
 	if !okv {
 		return zero(et), false
@@ -314,17 +347,36 @@ func (r *Run) tryRecv(c *ChanV, et types.Type) (Value, bool, bool) {
 	if len(c.buf) > 0 {
 		v := c.buf[0]
 		c.buf = c.buf[1:]
+		if r.eng.race && len(c.bufVC) > 0 {
+			r.raceJoin(c.bufVC[0])
+			c.bufVC = c.bufVC[1:]
+			if mc := r.raceMsgClock(); mc != nil {
+				c.freeVC = append(c.freeVC, mc)
+			}
+		}
 		if w := r.popWaiter(&c.sendq); w != nil {
+			// the parked sender's value moves into the slot this receive has just freed
 			c.buf = append(c.buf, w.val)
+			if r.eng.race {
+				c.bufVC = append(c.bufVC, w.vc)
+				c.nsend++
+				if len(c.freeVC) > 0 {
+					r.raceJoinInto(w.g, c.freeVC[0])
+					c.freeVC = c.freeVC[1:]
+				}
+			}
 			r.ready(w.g)
 		}
 		return v, true, true
 	}
 	if w := r.popWaiter(&c.sendq); w != nil {
+		r.raceJoin(w.vc)
+		r.raceJoinInto(w.g, r.raceMsgClock()) // unbuffered: the receive happens before the send completes
 		r.ready(w.g)
 		return w.val, true, true
 	}
 	if c.closed {
+		r.raceJoin(c.closeVC)
 		return zero(et), false, true
 	}
 	return nil, false, false
@@ -339,6 +391,9 @@ func (r *Run) chanClose(c *ChanV) {
 	}
 	r.event()
 	c.closed = true
+	if r.raceOn() && !r.rs().external {
+		c.closeVC = r.raceMsgClock()
+	}
 	for {
 		w := r.popWaiter(&c.recvq)
 		if w == nil {
@@ -347,6 +402,7 @@ func (r *Run) chanClose(c *ChanV) {
 		if w.ok != nil {
 			*w.ok = false
 		}
+		r.raceJoinInto(w.g, c.closeVC)
 		r.ready(w.g)
 	}
 	// stale select waiters (their select already fired on another case) are not blocked senders
@@ -415,11 +471,15 @@ func (r *Run) selectStmt(fr *frame, instr *ssa.Select) Value {
 					if w.ok != nil {
 						*w.ok = true
 					}
+					r.raceJoinInto(w.g, r.raceMsgClock())
+					if c.cap == 0 {
+						r.raceJoin(w.vc)
+					}
 					r.ready(w.g)
 					return mk(i, false)
 				}
 				if len(c.buf) < c.cap {
-					c.buf = append(c.buf, fr.get(st.Send))
+					r.bufSend(c, fr.get(st.Send), r.raceMsgClock())
 					return mk(i, false)
 				}
 			}
@@ -432,15 +492,16 @@ func (r *Run) selectStmt(fr *frame, instr *ssa.Select) Value {
 	me := cs.cur
 	slots := make([]Value, n)
 	oks := make([]bool, n)
+	parkVC := r.raceMsgClock()
 	for i, st := range instr.States {
 		c := chans[i]
 		if c == nil {
 			continue
 		}
 		if st.Dir == types.RecvOnly {
-			c.recvq = append(c.recvq, &waiter{g: me, slot: &slots[i], ok: &oks[i], sel: sel, index: i})
+			c.recvq = append(c.recvq, &waiter{g: me, slot: &slots[i], ok: &oks[i], sel: sel, index: i, vc: parkVC})
 		} else {
-			c.sendq = append(c.sendq, &waiter{g: me, val: fr.get(st.Send), sel: sel, index: i})
+			c.sendq = append(c.sendq, &waiter{g: me, val: fr.get(st.Send), sel: sel, index: i, vc: parkVC})
 		}
 	}
 	r.block("select")
@@ -472,6 +533,7 @@ func (c *ctxObj) cancel(err Value) {
 		return
 	}
 	c.err = err
+	c.r.raceRelease(c)
 	c.r.chanClose(c.done)
 	for _, ch := range c.children {
 		ch.cancel(err)
@@ -484,6 +546,7 @@ func (c *ctxObj) method(name string) Value {
 		return &hostFunc{name: "ctx.Done", f: func(r *Run, fr *frame, a []Value) Value { return c.done }}
 	case "Err":
 		return &hostFunc{name: "ctx.Err", f: func(r *Run, fr *frame, a []Value) Value {
+			r.raceAcquire(c)
 			if c.err == nil {
 				return Iface{}
 			}
@@ -545,6 +608,7 @@ func (e *Engine) registerConcIntrinsics() {
 				g.err = e
 				g.ctx.cancel(e)
 			}
+			r.raceRelease(g)
 			g.n--
 			if g.n == 0 {
 				for _, w := range g.waiters {
@@ -563,6 +627,7 @@ func (e *Engine) registerConcIntrinsics() {
 			g.waiters = append(g.waiters, r.conc().cur)
 			r.block("errgroup.Wait")
 		}
+		r.raceAcquire(g)
 		g.ctx.cancel(canceled(r))
 		if g.err == nil {
 			return Iface{}
@@ -581,6 +646,7 @@ func (e *Engine) registerConcIntrinsics() {
 	}
 	in["(*sync.WaitGroup).Add"] = func(r *Run, fr *frame, a []Value) Value {
 		s := wg(r, a[0])
+		r.raceRelease(s)
 		s.n += r.concreteInt(a[1], "wg delta")
 		if s.n < 0 {
 			panic(goPanic{strLit("sync: negative WaitGroup counter")})
@@ -602,6 +668,7 @@ func (e *Engine) registerConcIntrinsics() {
 			s.waiters = append(s.waiters, r.conc().cur)
 			r.block("WaitGroup.Wait")
 		}
+		r.raceAcquire(s)
 		return nil
 	}
 	mu := func(r *Run, p Value) *muState {
@@ -621,6 +688,7 @@ func (e *Engine) registerConcIntrinsics() {
 			r.block("Mutex.Lock")
 		}
 		s.locked = true
+		r.raceAcquire(s)
 		return nil
 	}
 	unlock := func(r *Run, fr *frame, a []Value) Value {
@@ -629,6 +697,7 @@ func (e *Engine) registerConcIntrinsics() {
 			panic(goPanic{strLit("sync: unlock of unlocked mutex")})
 		}
 		s.locked = false
+		r.raceRelease(s)
 		if len(s.waiters) > 0 {
 			w := s.waiters[0]
 			s.waiters = s.waiters[1:]
@@ -669,19 +738,33 @@ func (e *Engine) registerAtomicIntrinsics() {
 		"Uint64": types.Typ[types.Uint64], "Uintptr": types.Typ[types.Uintptr]}
 	for name, t := range kinds {
 		t := t
-		in["sync/atomic.Load"+name] = func(r *Run, fr *frame, a []Value) Value { return copyVal(*a[0].(Ptr)) }
-		in["sync/atomic.Store"+name] = func(r *Run, fr *frame, a []Value) Value { *a[0].(Ptr) = copyVal(a[1]); return nil }
+		in["sync/atomic.Load"+name] = func(r *Run, fr *frame, a []Value) Value {
+			r.raceAcquire(atomicKey{a[0].(Ptr)})
+			return copyVal(*a[0].(Ptr))
+		}
+		in["sync/atomic.Store"+name] = func(r *Run, fr *frame, a []Value) Value {
+			r.raceAcquire(atomicKey{a[0].(Ptr)})
+			r.raceRelease(atomicKey{a[0].(Ptr)})
+			*a[0].(Ptr) = copyVal(a[1])
+			return nil
+		}
 		in["sync/atomic.Swap"+name] = func(r *Run, fr *frame, a []Value) Value {
+			r.raceAcquire(atomicKey{a[0].(Ptr)})
+			r.raceRelease(atomicKey{a[0].(Ptr)})
 			old := copyVal(*a[0].(Ptr))
 			*a[0].(Ptr) = copyVal(a[1])
 			return old
 		}
 		in["sync/atomic.Add"+name] = func(r *Run, fr *frame, a []Value) Value {
+			r.raceAcquire(atomicKey{a[0].(Ptr)})
+			r.raceRelease(atomicKey{a[0].(Ptr)})
 			v := r.binop(token.ADD, t, *a[0].(Ptr), a[1])
 			*a[0].(Ptr) = v
 			return copyVal(v)
 		}
 		in["sync/atomic.CompareAndSwap"+name] = func(r *Run, fr *frame, a []Value) Value {
+			r.raceAcquire(atomicKey{a[0].(Ptr)})
+			r.raceRelease(atomicKey{a[0].(Ptr)})
 			eq := r.binop(token.EQL, t, *a[0].(Ptr), a[1]).(BoolV)
 			same := eq.C
 			if eq.S != nil {
@@ -693,6 +776,14 @@ func (e *Engine) registerAtomicIntrinsics() {
 			return BoolV{C: same}
 		}
 	}
-	in["sync/atomic.LoadPointer"] = func(r *Run, fr *frame, a []Value) Value { return *a[0].(Ptr) }
-	in["sync/atomic.StorePointer"] = func(r *Run, fr *frame, a []Value) Value { *a[0].(Ptr) = a[1]; return nil }
+	in["sync/atomic.LoadPointer"] = func(r *Run, fr *frame, a []Value) Value {
+		r.raceAcquire(atomicKey{a[0].(Ptr)})
+		return *a[0].(Ptr)
+	}
+	in["sync/atomic.StorePointer"] = func(r *Run, fr *frame, a []Value) Value {
+		r.raceAcquire(atomicKey{a[0].(Ptr)})
+		r.raceRelease(atomicKey{a[0].(Ptr)})
+		*a[0].(Ptr) = a[1]
+		return nil
+	}
 }
